@@ -7,7 +7,7 @@ CONSTANTS
   MinParams = 1
   MaxParams = 2
   ParamTypes = {"int", "str"}
-  ArgTypes = {"any|str", "any", "int"}
+  ArgTypes = {"any|str", "any"}
   Names = {"x", "y"}
   Kinds = {"pk", "ko"}
   Defaults = {FALSE, TRUE}
